@@ -190,6 +190,7 @@ class HandlerExplorer:
     def __init__(self, p: Program, r: Resolver, reg: Registry, handlers: Dict[str, FuncInfo], ctx: CheckContext, rule: str):
         self.p, self.r, self.reg, self.handlers, self.ctx, self.rule = p, r, reg, handlers, ctx, rule
         self.handler_set = set(handlers.values())
+        self.handler_types: Dict[FuncInfo, List[str]] = {}
         self.module = next(iter(self.handler_set)).module
         self.ztypes = [nm for nm in reg.zt.class_attrs if not nm.startswith("_")]
         self.all_k = set(reg.tt.class_attrs)
@@ -423,7 +424,7 @@ class HandlerExplorer:
                 ty = st["types"].get(var)
                 if self.record and t in self.handler_set and ty is not None and ty in self.table_types_inv and var in st.get("tested", ()):
                     want = self.table_types_inv[ty]
-                    site = f"{g.qualname}:handler for child type {ty}"
+                    site = f"{self._site_owner(g)}:handler for child type {ty}"
                     ok = want is t
                     prev = self.dispatch_sites.get(site, (True, None))
                     self.dispatch_sites[site] = (prev[0] and ok, (g, call, ty, t, want))
@@ -434,7 +435,7 @@ class HandlerExplorer:
                 continue
             sm = self.reg.summary(t)
             for who, k, node in sm.requires:
-                site = f"{g.qualname}:{t.name} requires {k}({'zone' if who == 'self' else 'every sub-zone'})"
+                site = f"{self._site_owner(g)}:{t.name} requires {k}({'zone' if who == 'self' else 'every sub-zone'})"
                 if who == "self":
                     ok = k in st["defs"][var]
                     self._req(site, ok, g, call, env, f"{t.name}(zone) reads the zone's own '{self._kval(k)}' record before it is computed")
@@ -463,6 +464,7 @@ class HandlerExplorer:
                 vb = self.p.resolve_attr_chain(main, v)
                 if bb is not None and bb.kind == "classattr" and vb is not None and vb.kind == "func":
                     table_types[vb.target] = bb.target[1]
+                    self.handler_types.setdefault(vb.target, []).append(bb.target[1])
         self.table_types_inv = {ty: h for h, ty in table_types.items()}
         for combo in itertools.product([False, True], repeat=len(self.flags)):
             env = dict(zip(self.flags, combo))
@@ -483,6 +485,13 @@ class HandlerExplorer:
             self.record = True
             for h in self.handler_set:
                 self.eval_fn(h, env, table_types.get(h))
+
+    def _site_owner(self, g: FuncInfo) -> str:
+        """findings are keyed by the ROLE of the function (handler registered for zone type X), so that renaming or moving a handler keeps the key"""
+        tys = self.handler_types.get(g)
+        if tys:
+            return f"{g.module.name}:handler[{'/'.join(sorted(tys))}]"
+        return g.qualname
 
     assume_env: Dict[frozenset, dict] = {}
     _active: set = set()
